@@ -147,11 +147,8 @@ def check_case(case):
             v.append({"clause": "summary-parse", "detail": parsed["errors"][0]})
         avr = [g for g in rec["confs"]["AVR"]["groups"] if g["reported"]]
         want = collections.Counter()
-        order = cfg["write_out_order"]
         for g in avr:
             if g["ctg"] is not None:
-                continue
-            if g["rtype"] not in order:
                 continue
             want[(g["label"].rjust(9), "%.2f" % g["pka"], "%.2f" % g["model_pka"])] += 1
         got = collections.Counter((r["label"], r["pka"], r["model_pka"]) for r in parsed["summary"])
